@@ -22,7 +22,10 @@ def add(prop, name, patch, demo_py, needs=""):
     d = os.path.join(SEED, name)
     os.makedirs(d, exist_ok=True)
     shutil.copy(patch, os.path.join(d, "patch.diff"))
-    shutil.copy(demo_py, os.path.join(d, "demo.py"))
+    src = open(demo_py).read().splitlines(True)
+    # the author's demo pins the scratch worktree path; here it runs against /repo with the patch applied
+    src = [l for l in src if not ("funsor.__file__" in l and ("assert" in l or "startswith" in l))]
+    open(os.path.join(d, "demo.py"), "w").write("".join(src))
     clean()
     rc0, out0 = demo(os.path.join(d, "demo.py"))
     a = sh("git -C /repo apply %s" % os.path.join(d, "patch.diff"))
